@@ -263,6 +263,12 @@ FAMILIES = [  # names whose keys collide under one or the other reading
     ["bad%G1.lua", "bad%.lua", "t%", "t%4", "%zz.lua", "ok%41.lua", "okA.lua"],
     ["k+.txt", "k%20.txt", "n.txt", "UP.LUA", "v.lua%20", "v.lua+"],
     ["%F0%9F%98%80+1.lua", "%F0%9F%98%80%201.lua", "é+.lua", "é%20.lua"],
+    # names that differ ONLY in letter case: distinct resources on a case-sensitive file system, distinct cache keys
+    # (seeded C02-5 lower-cased the key); CONFIG.LUA is not a Lua document for the server (suffix test)
+    ["Config.lua", "config.lua", "CONFIG.lua", "cONFIG.lua", "CONFIG.LUA", "config.Lua"],
+    ["Utils/init.lua", "utils/init.lua", "UTILS/init.lua", "utils/Init.lua", "utils/INIT.lua"],
+    ["É.lua", "é.lua", "%C3%89.lua", "%C3%A9.lua", "Ж.lua", "ж.lua", "Ω.lua", "ω.lua"],
+    ["A.lua", "a.lua", "%41.lua", "%61.lua", "a+B.lua", "A+b.lua", "a%20B.lua", "a%20b.lua"],
 ]
 PLAIN = ["d0.lua", "d1.lua", "d2.lua", "m-1_x~.lua", "dir/deep/f.lua", "d3.txt", "q.lua", "w+w.lua"]
 
@@ -420,7 +426,10 @@ class Client:
         if r.random() < 0.12:
             t = self.text(True)
             self.docs[d] = t
-            return "F.0:" + cps(t)
+            # a change without range is a full-text change whatever the (optional, deprecated) rangeLength says
+            # (finding C01-change-without-range); the Spec's conformance still asks for rangeLength 0, so the ones
+            # with a stray value are compared implementation vs. model only
+            return "F.%d:" % (0 if r.random() < 0.85 else r.choice([1, 2, len(t), 4294967295])) + cps(t)
         ps = positions(s)
         k = r.random()
         if k < 0.25:
@@ -487,7 +496,9 @@ def gen_history(rng, tier):
     out = ["O0:-", "O0:- C0:0.0.0.0.0:61", "O0:61.d.a.4e2d C0:1.1.1.1.0:78 C0:0.1.1.0.2:- S0:61.4e2d.78 X0",
            "O0:78 S0:nil C0:0.1.0.1.0:79 S0:nil X0",
            table_tok(["a+b.lua", "a%20b.lua"]) + " O0:78 O1:79 C0:0.1.0.1.0:7a S1:nil X0 C1:0.0.0.1.1:-",
-           table_tok(["a%2Bb.lua", "a%20b.lua", "%E4%B8%AD.lua"]) + " O0:78 O1:79 O2:- C2:0.0.0.0.0:4e2d X1 S0:78"]
+           table_tok(["a%2Bb.lua", "a%20b.lua", "%E4%B8%AD.lua"]) + " O0:78 O1:79 O2:- C2:0.0.0.0.0:4e2d X1 S0:78",
+           table_tok(["Config.lua", "config.lua"]) + " O0:78 O1:79 C0:0.1.0.1.0:7a X1 C0:0.0.0.1.1:- S0:7a",
+           table_tok(["Utils/init.lua", "utils/init.lua", "É.lua", "é.lua"]) + " O0:78 O1:79 O2:7a O3:- C3:0.0.0.0.0:4e2d X0 C1:0.1.0.1.0:62 X2 S3:nil"]
     for _ in range(n):
         _, pools = pick_mode(rng)
         out.append(Client(rng, pools, 12, gen_table(rng)).run())
@@ -541,6 +552,125 @@ def gen_history_bad(rng, tier):
     return out
 
 
+# ------------------------------------------------------------------ c02.analysed (what is ANALYSED = what is cached)
+class LineClient:
+    """a conforming client whose documents are lines `NAME = 1` (fresh names) and whose edits work on whole lines -
+    so every text it ever holds is a clean Lua chunk whose outline is the list of its names: insert / replace / delete
+    runs of lines by range, delete the WHOLE document by range (with and without a final line break), full
+    replacement, save with and without text, close and re-open"""
+    def __init__(self, rng, names):
+        self.rng, self.names = rng, names
+        self.docs, self.notes, self.k, self.disk, self.seen = {}, [], 0, {}, set()
+        self.lua = [i for i, n in enumerate(names) if name_is_lua(n.encode("utf8"))]
+        self.eol = rng.choice(["\n", "\n", "\r\n"])
+
+    def lines(self, n):
+        out = []
+        for _ in range(n):
+            self.k += 1
+            out.append("%s%d = 1" % (self.rng.choice(["g", "cfg_", "Mod", "x"]), self.k))
+        return out
+
+    def fresh(self):
+        ls = self.lines(self.rng.choice([0, 1, 1, 2, 3, 5]))
+        t = self.eol.join(ls)
+        return t + (self.eol if ls and self.rng.random() < 0.6 else "")
+
+    def change(self, d):
+        r, s = self.rng, self.docs[d]
+        k = r.random()
+        if k < 0.15:
+            t = self.fresh()
+            self.docs[d] = t
+            return "F.0:" + cps(t)
+        # line starts of the text (offsets), plus the end of the text
+        starts = [0]
+        for i, c in enumerate(s):
+            if c == "\n":
+                starts.append(i + 1)
+        nl = len(starts)                       # number of lines, the last one possibly empty
+        def pos(off):
+            l = max(i for i in range(nl) if starts[i] <= off)
+            return l, off - starts[l]
+        ends_open = not (s == "" or s.endswith("\n"))
+        if k < 0.45:                           # the whole document by range
+            a, b, t = 0, len(s), ("" if r.random() < 0.7 else self.fresh())
+        else:
+            i = r.randrange(nl); j = r.randrange(i, nl)
+            a, b = starts[i], starts[j]
+            if r.random() < 0.3:
+                b = len(s)                     # up to the very end
+            new = self.lines(r.choice([0, 0, 1, 2]))
+            t = "".join(l + self.eol for l in new)
+            if b == len(s) and ends_open and a < b and new:
+                pass                           # the kept prefix ends with a line break; new lines end with one too
+            if a == len(s) and ends_open:
+                t = (self.eol + self.eol.join(new)) if new else ""      # append behind an unterminated last line
+            elif b < len(s) or not new:
+                pass
+        (sl, sc), (el, ec) = pos(a), pos(b)
+        rl = sum(u16(c) for c in s[a:b]) if r.random() < 0.7 else 0
+        self.docs[d] = s[:a] + t + s[b:]
+        return "%d.%d.%d.%d.%d:%s" % (sl, sc, el, ec, rl, cps(t))
+
+    def run(self, n):
+        r = self.rng
+        while len(self.notes) < n:
+            opened = sorted(self.docs)
+            closed = [d for d in self.lua if d not in self.docs]
+            acts = ([(60, "change"), (8, "save"), (5, "savenil"), (6, "close")] if opened else []) + ([(14 if opened else 100, "open")] if closed else [])
+            a = wchoice(r, acts)
+            if a == "open":
+                # the editor opens what is on disk: a fresh file the first time, later what the last save left there
+                # (no other program writes the files: a didOpen whose text differs from the disk is a separate matter,
+                # see the report of finding C02-open-text-not-analysed)
+                d = r.choice(closed)
+                # a document that was only ever opened as a buffer (note P) and never saved has no file: it can only
+                # come back as a buffer (a file appearing on disk would be announced by a watched-file event)
+                if r.random() < 0.3 or (d in self.seen and d not in self.disk):
+                    self.seen.add(d)
+                    # ... or restores an unsaved buffer (hot exit): note P = didOpen whose text is NOT the file's
+                    # (finding C02-open-text-not-analysed); the disk keeps what it had (nothing, if never opened)
+                    t = self.fresh()
+                    self.docs[d] = t
+                    self.notes.append("P%d:%s" % (d, cps(t)))
+                    continue
+                t = self.disk[d] if d in self.disk else self.fresh()
+                self.docs[d] = self.disk[d] = t
+                self.notes.append("O%d:%s" % (d, cps(t)))
+            elif a == "change":
+                d = r.choice(opened)
+                self.notes.append("C%d:%s" % (d, ";".join(self.change(d) for _ in range(r.choice([1, 1, 1, 2, 3])))))
+            elif a == "save":
+                d = r.choice(opened)
+                self.disk[d] = self.docs[d]
+                self.notes.append("S%d:%s" % (d, cps(self.docs[d])))
+            elif a == "savenil":
+                d = r.choice(opened)
+                self.disk[d] = self.docs[d]
+                self.notes.append("S%d:nil" % d)
+            else:
+                d = r.choice(opened)
+                del self.docs[d]
+                self.notes.append("X%d" % d)
+        return " ".join([table_tok(self.names)] + self.notes)
+
+
+def gen_analysed(rng, tier):
+    n = {"quick": 2500, "thorough": 60000, "search": 1200}[tier]
+    out = [table_tok(["d0.lua"]) + " O0:67.64.69.73.6b.20.3d.20.31 C0:0.0.0.9.9:-",          # `gdisk = 1` emptied by range: the outline must be empty
+           table_tok(["d0.lua"]) + " O0:67.31.20.3d.20.31.a C0:F.0:67.32.20.3d.20.31 C0:0.0.0.6.6:-",
+           table_tok(["d0.lua", "d1.lua"]) + " O0:67.31.20.3d.20.31.a O1:67.32.20.3d.20.31.a C0:0.0.1.0.7:- C1:0.0.1.0.0:67.33.20.3d.20.31.a S0:nil X0",
+           table_tok(["d0.lua"]) + " O0:67.64.69.73.6b.20.3d.20.31.a X0 P0:67.62.75.66.20.3d.20.31.a",           # re-opened with a text that is not the file's
+           table_tok(["d0.lua"]) + " P0:67.62.75.66.20.3d.20.31.a S0:nil X0 P0:-"]
+    for _ in range(n):
+        names = rng.sample(["d0.lua", "d1.lua", "sub/m.lua", "Config.lua", "config.lua", "d3.txt"], rng.choice([1, 1, 2, 3]))
+        if not any(x.endswith(".lua") for x in names):
+            names.append("d0.lua")
+        out.append(LineClient(rng, names).run(rng.randrange(2, 10)))
+    return out
+
+
 def shrink_history(case):
     toks = case.split(" ")
     head = []
@@ -574,6 +704,9 @@ LEGS = [
     Leg("c02.apply", gen_apply, nontrivial=lambda c: ":" in c),
     Leg("c02.history", gen_history, shrink=shrink_history, nontrivial=hist_nontrivial, per_case_s=0.3),
     Leg("c02.history_bad", gen_history_bad, shrink=shrink_history, nontrivial=lambda c: True, per_case_s=0.3),
+    # what the server ANALYSES for an open document (outline of the real documentSymbol handler) = what it holds = what
+    # the client holds; model: the analysed text is the cached text (finding C02-empty-after-delete)
+    Leg("c02.analysed", gen_analysed, shrink=shrink_history, nontrivial=lambda c: " C" in c, per_case_s=0.3),
     Leg("c02.uri", gen_uri, shrink=shrink_uri, nontrivial=lambda c: "25" in c or "2b" in c),
     Leg("c02.uri3", gen_uri, shrink=shrink_uri, nontrivial=lambda c: "25" in c or "2b" in c),
     Leg("c02.rootprefix", gen_rootprefix, nontrivial=lambda c: "25" in c or "2b" in c, per_case_s=0.5),
